@@ -59,6 +59,7 @@ type Opts struct {
 	ThreshTarg int      `json:"threshtarg,omitempty"`
 	NoFill     bool     `json:"nofill,omitempty"`
 	DistPush   int      `json:"distpush,omitempty"`
+	MinCount   int      `json:"mincount,omitempty"` // sam indels --threshold
 	// cli: the real cobra command line (files are looked up in Case.Files)
 	Args []string `json:"args,omitempty"`
 }
@@ -168,6 +169,12 @@ func Exec(c *Case, rc *RunCfg) *Result {
 			res.Err = sam.ToMultiAlign(in("sam"), out, o.Wrap, o.Start, o.End, o.Pad, o.Threads)
 		case "topa":
 			res.Err = sam.ToPairAlign(in("sam"), in("ref"), o.OutDir, o.Wrap, o.Start, o.End, o.OmitRef, o.OmitIns, o.Threads)
+		case "indels":
+			// both tables go to files; standard output only carries the deprecation notice
+			ins, del := &bytes.Buffer{}, &bytes.Buffer{}
+			env.files["insertions.txt"], env.files["deletions.txt"] = ins, del
+			env.order = append(env.order, "insertions.txt", "deletions.txt")
+			res.Err = sam.Indels(in("sam"), &simWriter{env: env, dest: "files", buf: ins}, &simWriter{env: env, dest: "files", buf: del}, o.MinCount)
 		case "samvariants":
 			res.Err = sam.Variants(in("sam"), in("ref"), o.RefFromFile, in("anno"), o.AnnoSuffix, out, o.Start, o.End, o.Aggregate, o.Threshold, o.AppendSNP, o.Threads)
 		case "variants":
